@@ -41,7 +41,7 @@ def _scenario(draw, tier):
         acq=draw(st.sampled_from(["EI", "EI", "UCB", "MaxVar", "default"])),
         optimizer=draw(st.sampled_from(["bfgs", "bfgs", "diffev"])),
         y_err=draw(st.booleans()), n_processes=draw(st.sampled_from([1, 1, 2, 3])),
-        x_form=draw(st.sampled_from(["2d", "2d", "1d", "list"])), bounds_form=draw(st.sampled_from(["tuples", "tuples", "ndarray", "lists"])),
+        x_form=draw(st.sampled_from(["2d", "2d", "1d", "list", "int"])), bounds_form=draw(st.sampled_from(["tuples", "tuples", "ndarray", "lists"])),
         newx_form=draw(st.sampled_from(["row", "flat", "scalar", "list"])),
         lo=draw(st.sampled_from([0.0, -2.0, 10.0])), width=draw(st.sampled_from([1.0, 4.0])),
         func=draw(st.sampled_from(["sin", "quad", "bump"])), kappa=draw(st.sampled_from([0.5, 2.0])),
@@ -194,9 +194,18 @@ def execute(sc):
         from inference.gp import GpOptimiser, ExpectedImprovement, UpperConfidenceBound, MaxVariance
 
         X0 = lo + (hi - lo) * g.random((sc["n0"], d))
+        if sc["x_form"] == "int":
+            # integer-valued locations held in an integer-dtype array (as in the library's own examples)
+            lo, hi = np.full(d, -8.0), np.full(d, 8.0)
+            bounds = [(-8.0, 8.0)] * d
+            sc = dict(sc, lo=-8.0, width=16.0)
+            pts = g.permutation(17)[: sc["n0"]] - 8
+            X0 = np.stack([np.roll(pts, k) for k in range(d)], axis=1).astype(float)
         y0 = np.array([_objective(sc, x) for x in X0])
         e0 = np.full(sc["n0"], 0.05) if sc["y_err"] else None
-        if d == 1 and sc["x_form"] == "1d":
+        if sc["x_form"] == "int":
+            x_in = X0.astype(np.int64)
+        elif d == 1 and sc["x_form"] == "1d":
             x_in = X0[:, 0].copy()
         elif sc["x_form"] == "list":
             x_in = [row.copy() for row in X0]
